@@ -656,7 +656,7 @@ impl Puppet {
 
     fn inject_invalid(&mut self) {
         let r = self.round_upper.max(self.node_round_estimate());
-        let kinds: Vec<u32> = if self.cfg.only_mutations.is_empty() { (0..28).collect() } else { self.cfg.only_mutations.clone() };
+        let kinds: Vec<u32> = if self.cfg.only_mutations.is_empty() { (0..31).collect() } else { self.cfg.only_mutations.clone() };
         let kind = kinds[self.r.below(kinds.len())];
         let leader = self.members.leader_index(r);
         let ps = self.puppets();
@@ -928,6 +928,35 @@ impl Puppet {
                     let pl = vec![ident::bytes_digest(&self.r.next().to_le_bytes())];
                     let b = self.mk_block(author, r, QC::genesis(), Some(tc), pl);
                     what = "block whose TC has a flipped signature bit".into();
+                    bad_block = Some(b);
+                }
+            }
+            28 | 29 | 30 => {
+                // An otherwise perfectly valid proposal of the normal shape (QC of the preceding
+                // round) with a superfluous INVALID TC attached; the TC is not covered by the
+                // block's signature, so anybody can attach one. Accepting it would move the node
+                // to the TC's round.
+                if tip_r + 1 == r && r > 1 && leader != self.real {
+                    let signers = self.quorum_of_puppets();
+                    let highs: Vec<Round> = signers.iter().map(|_| 0).collect();
+                    let far = r + 4 + self.r.range(0, 40);
+                    let mut tc = self.mk_tc(far, &signers, &highs);
+                    match kind {
+                        28 => {
+                            tc.votes[0].1 = self.flip_sig(&tc.votes[0].1.clone());
+                            what = "valid proposal carrying a superfluous TC with a flipped signature bit".into();
+                        }
+                        29 => {
+                            tc.votes.truncate(1);
+                            what = "valid proposal carrying a superfluous TC far below the quorum".into();
+                        }
+                        _ => {
+                            tc.votes.clear();
+                            what = "valid proposal carrying a superfluous TC without any vote".into();
+                        }
+                    }
+                    let mut b = valid.clone();
+                    b.tc = Some(tc);
                     bad_block = Some(b);
                 }
             }
